@@ -225,6 +225,10 @@ func (a *IntervalAnalyzer) base(v ssa.Value, ctx *ssa.BasicBlock, depth int) Int
 				}
 				return Interval{0, hi, true}
 			}
+			// signed dividend of unknown sign: Go's % keeps the sign of the dividend
+			if r.Known && r.Lo == r.Hi && r.Lo > 0 && !uns {
+				return Interval{-(r.Lo - 1), r.Lo - 1, true}
+			}
 		case token.AND:
 			if r.Known && r.Lo == r.Hi && r.Lo >= 0 {
 				return Interval{0, r.Lo, true}
